@@ -452,6 +452,18 @@ def directed_cases():
                gz="truncated")
     yield case(b"HTTP/1.1 200 OK\r\nContent-Encoding: gzip\r\nTransfer-Encoding: chunked\r\n\r\n%x\r\n" % (len(gz) - 3)
                + gz[:-3] + b"\r\n0\r\n\r\n", gz="truncated")
+    # a highly compressible gzip body cut while the inflater still holds output (flush() returns data):
+    # used to escape as ValueError, logged as an uncaught exception
+    big = gzip.compress(b"\x00" * 200000, 9, mtime=0)
+    dribble = {"cuts": "whole", "plan": "one", "stream_cb": True, "decompress": True, "max_body": None, "tmo": "none", "rs": 5}
+    for cut in (60, 115, len(big) - 9):
+        yield case(b"HTTP/1.1 200 OK\r\nContent-Encoding: gzip\r\nContent-Length: %d\r\n\r\n" % cut + big[:cut],
+                   gz="truncated", force_cfgs=[dribble, dict(dribble, stream_cb=False, tmo="default")])
+    # recorded witness (thorough tier, seed 3): truncated gzip body + a read schedule that leaves 512 bytes of
+    # output inside the inflater at finish() -> flush() returned data -> ValueError logged as uncaught (fixed)
+    import base64, os, pickle
+    wpath = os.path.join(os.path.dirname(os.path.abspath(__file__)), "c08_directed.b64")
+    yield pickle.loads(base64.b64decode(open(wpath).read()))
     # close-delimited body larger than max_body_size
     yield case(b"HTTP/1.1 200 OK\r\n\r\n" + b"x" * 250, framing="close")
     yield case(b"HTTP/1.0 200 OK\r\nContent-Type: text/plain\r\n\r\n" + b"y" * 101, framing="close")
@@ -611,6 +623,8 @@ def configs_for(case, tier):
     n = len(case["stream"])
     k = (3 if tier == "quick" else 5) + (1 if rng.random() < 0.5 else 0)
     out = [{"cuts": "whole", "plan": "none", "stream_cb": False, "decompress": True, "max_body": None, "tmo": "default"}]
+    for extra in case.get("force_cfgs") or ():
+        out.append(dict(extra))
     for i in range(k - 1):
         style = rng.choice(["whole", "random", "random", "pairs" if n <= 300 else "random",
                             "bytes" if n <= 400 else "random", "at:%d" % max(1, case["head_end"] - rng.choice([0, 1, 2, 3])),
